@@ -86,7 +86,6 @@ def truthField (st : St) (mode : TruthMode) (att : Color) (root : Pos)
 
 def handleSolvers : Handler := fun st op args =>
   match op, args with
-  | "case", _ => some (st, "ok")
   | "pn", [mn, pres, pn2, md, tm, ptok] =>
     some (st, withPos ptok fun p =>
       match mn.toNat?, md.toInt?, parseTruthMode tm with
@@ -112,10 +111,6 @@ def handleSolvers : Handler := fun st op args =>
             toString s.work, toString s.repetition, toString s.terminal, toString s.solved, toString s.hits,
             toString s.miss, truthField st mode attacker p r.result r.move]
       | _, _ => "bad-op")
-  | "pnthreats", [ptok] =>
-    some (st, withPos ptok fun p =>
-      let t := Tak.DFPN.countThreats p
-      s!"{t.wp} {t.wt} {t.bp} {t.bt}")
   | "pngraph", [cap, ptok] =>
     match cap.toNat?, parsePos ptok with
     | some cap, some (p, true) =>
